@@ -183,6 +183,9 @@ func (c *Ctx) strSym(st *State, s StrV) StrV {
 
 // strAt returns byte i of s (no bounds obligation here).
 func (c *Ctx) strAt(st *State, s StrV, i *Term) *Term {
+	if s.Spec == "ite" {
+		return Ite(s.SArgs[0].(*Term), c.strAt(st, s.SArgs[1].(StrV), i), c.strAt(st, s.SArgs[2].(StrV), i))
+	}
 	if s.Conc != nil {
 		str := *s.Conc
 		if isNum(i) {
